@@ -20,6 +20,7 @@
  * Trace (stdout), one line per item:
  *   S k tc=<threadcount> R=<runnable> P=<parked,unsignalled> B=<blocked on tc mutex/cond>
  *       X=<blocked otherwise> T=<0|1 time can help> h=<state signature>
+ *       [ts=<t[i].state digit per target>   only with case key `tstates 1` (C20)]
  *   E k <thread> <event> <args>      the operation performed at step k
  *   I <thread> <event> <args>        an operation performed inline (not a scheduling point)
  *   C <choice tokens>                the schedule actually taken (replayable: strategy list)
@@ -77,6 +78,7 @@ struct vthread {
     sem_t sem;
     struct op pend;
     int eager;                  /* running from creation to its first scheduling point */
+    int ended;                  /* its start routine returned (as opposed to: it was pthread_cancel()ed) */
     int signaled;               /* parked on a cond and signalled */
     void *waitc;                /* cond it is parked on */
     long waitseq;
@@ -85,6 +87,8 @@ struct vthread {
     int prio;
     void *(*fn) (void *);
     void *arg;
+    long vid;                   /* virtual thread id handed to pdsh as its pthread_t */
+    int vid_reused;             /* the id belonged to an earlier, finished thread */
 };
 static struct vthread th[MAXT];
 static int nth;
@@ -114,10 +118,13 @@ struct sigat { long step; int sig; int done; };
 static struct sigat sigats[32];
 static int nsigat;
 static int sigq[32], nsigq;
+static int show_ts;
 
 /* monitors */
 static int inflight, peak, peak_step = -1, early_return, nfwd;
 static long inline_run, spin_limit = 200000;
+#define NEVER (1L << 60)        /* script time "never": `out -1 EOF` = the stream hangs from there on */
+static int reltime;             /* script times relative to the host's own connectBegin / connectEnd */
 static long nsteps_spurious;
 
 /* ------------------------------------------------------------------ utilities */
@@ -171,13 +178,33 @@ static struct vmutex *mutex_of(void *addr)
 }
 static const char *cond_name(void *c) { return c == verif_tc_cond() ? "tc" : "c"; }
 
+/* Thread ids.  pdsh never sees the real pthread_t: pthread_create hands out a VIRTUAL id, so that a run does
+ * not depend on which ids glibc happens to reuse.  Like NPTL (whose pthread_t is the address of a cached
+ * thread descriptor), the id of a finished detached thread is reused by the next thread created (LIFO):
+ * using a stale id after the thread has ended -- undefined behaviour in POSIX -- reaches the thread that
+ * owns the id NOW, deterministically. */
+static long free_vids[MAXT], nfree_vids, next_vid = 1;
+#define VID_HANDLE(v) ((pthread_t) (0x7a000000UL + 64UL * (unsigned long) (v)))
+static long vid_alloc(int *reused)
+{
+    if (nfree_vids > 0) { *reused = 1; return free_vids[--nfree_vids]; }
+    *reused = 0;
+    return next_vid++;
+}
+static void vid_release(struct vthread *t)
+{
+    if (t->vid > 0 && nfree_vids < MAXT) free_vids[nfree_vids++] = t->vid;
+}
 static struct vthread *thread_of(pthread_t p)
 {
     int i;
-    for (i = 1; i < nth; i++)
-        if (pthread_equal(th[i].real, p))
-            return &th[i];
-    return NULL;
+    struct vthread *dead = NULL;
+    for (i = nth - 1; i >= 1; i--)
+        if (th[i].vid > 0 && VID_HANDLE(th[i].vid) == p) {
+            if (th[i].alive) return &th[i];
+            if (!dead) dead = &th[i];
+        }
+    return dead;
 }
 
 /* ------------------------------------------------------------------ transport helpers */
@@ -205,6 +232,7 @@ static long fd_next_time(int fd)
     struct script *s = script_of(fd);
     if (!s || s->closed || s->cur >= s->n)
         return -1;
+    if (s->it[s->cur].at >= NEVER) return -1;
     return s->it[s->cur].at > vclock ? s->it[s->cur].at : -1;
 }
 
@@ -358,7 +386,8 @@ static int apply(struct vthread *t, int spurious, int inl)
         pthread_attr_setdetachstate(&at, PTHREAD_CREATE_DETACHED);
         pthread_attr_setstacksize(&at, 1 << 20);
         if (__real_pthread_create(&c->real, &at, tramp, c) != 0) sched_bug("real pthread_create failed");
-        *(pthread_t *) o->obj = c->real;
+        c->vid = vid_alloc(&c->vid_reused);
+        *(pthread_t *) o->obj = VID_HANDLE(c->vid);
         if (!q) { evhdr(t, inl); fprintf(stdout, "create %s\n", c->name); }
         /* the new thread runs to its first scheduling point before anything else happens */
         c->eager = 1;
@@ -424,13 +453,14 @@ static int apply(struct vthread *t, int spurious, int inl)
         struct vthread *x = thread_of(*(pthread_t *) o->obj);
         int hit = 0;
         if (x && x->alive && (x->pend.kind == OP_POLL || x->pend.kind == OP_CONNEND)) { x->interrupted = 1; hit = 1; }
-        if (!q) { evhdr(t, inl); fprintf(stdout, "kill %s %ld %d\n", x ? x->name : "?", o->a, hit); }
+        if (!q) { evhdr(t, inl); fprintf(stdout, "kill %s %ld %d%s\n", x ? x->name : "?", o->a, hit,
+                                          x && x->vid_reused ? " reused-id" : ""); }
         o->ret = 0;
         return 1;
     }
     case OP_CANCEL: {
         struct vthread *x = thread_of(*(pthread_t *) o->obj);
-        if (x) x->alive = 0;    /* every blocking wrapped call is a cancellation point */
+        if (x && x->alive) { x->alive = 0; vid_release(x); }    /* every blocking wrapped call is a cancellation point */
         if (!q) { evhdr(t, inl); fprintf(stdout, "cancel %s\n", x ? x->name : "?"); }
         o->ret = 0;
         return 1;
@@ -524,6 +554,7 @@ static int apply(struct vthread *t, int spurious, int inl)
         return 1;
     case OP_CONNBEGIN: {
         struct vhost *h = &vhosts[o->a];
+        if (reltime) h->conn_at = vclock + h->conn_rel;
         h->nbegin++;
         inflight++;
         if (inflight > peak) { peak = inflight; peak_step = (int) step_no; }
@@ -538,7 +569,15 @@ static int apply(struct vthread *t, int spurious, int inl)
         struct vhost *h = &vhosts[o->a];
         h->nend++;
         if (t->interrupted) { t->interrupted = 0; o->ret = -1; o->err = EINTR; }
-        else if (h->conn_kind == CONN_OK) { o->ret = VFD_BASE + 2 * o->a; h->connected = 1; }
+        else if (h->conn_kind == CONN_OK) {
+            o->ret = VFD_BASE + 2 * o->a; h->connected = 1;
+            if (reltime) {      /* the remote side's stream script starts now */
+                int k2, j2;
+                for (k2 = 0; k2 < 2; k2++)
+                    for (j2 = 0; j2 < h->s[k2].n; j2++)
+                        if (h->s[k2].it[j2].at < NEVER) h->s[k2].it[j2].at += vclock;
+            }
+        }
         else { o->ret = -1; o->err = ECONNREFUSED; }
         if (!q) { evhdr(t, inl); fprintf(stdout, "connectEnd %ld %ld\n", o->a, o->ret); }
         t->hist = mix(t->hist, (uint64_t) o->ret);
@@ -636,7 +675,13 @@ static struct vthread *pick_and_apply(void)
     nt = next_time();
     fprintf(stdout, "S %ld tc=%d", step_no, verif_threadcount());
     plist("R", R, nR); plist("P", P, nP); plist("B", B, nB); plist("X", X, nX);
-    fprintf(stdout, " T=%d h=%016llx\n", nt >= 0, (unsigned long long) signature());
+    fprintf(stdout, " T=%d h=%016llx", nt >= 0, (unsigned long long) signature());
+    if (show_ts) {              /* C20: t[i].state per target (case key `tstates 1`; off by default) */
+        fprintf(stdout, " ts=");
+        if (!verif_have_t() || !nvhosts) fputc('-', stdout);
+        else for (i = 0; i < nvhosts; i++) fputc('0' + (verif_t_state(i) & 7), stdout);
+    }
+    fputc('\n', stdout);
 
     for (i = 0; i < nsigat; i++)
         if (!sigats[i].done && sigats[i].step <= step_no) {
@@ -651,6 +696,8 @@ static struct vthread *pick_and_apply(void)
     if (nR == 0) {
         if (nt < 0) finish("deadlock", 0);
         ck = 2;
+        /* a recorded schedule lists this forced tick too */
+        if (choice_pos < nchoices && strcmp(choices[choice_pos], "t") == 0) choice_pos++;
     } else {
         /* 1. listed choice */
         int have = 0;
@@ -727,7 +774,10 @@ static void schedule_loop(struct vthread *me)
         if (!n) continue;
         if (n == me) return;
         sem_post(&n->sem);
-        if (me->alive) sem_wait(&me->sem);
+        /* a thread whose start routine returned goes on to end; a thread that was cancelled while it
+         * was the one executing the scheduler (pthread_cancel of the signals thread in the middle of
+         * a handler) must never run pdsh code again: it parks for good like any other cancelled thread */
+        if (me->alive || !me->ended) sem_wait(&me->sem);
         return;
     }
 }
@@ -762,6 +812,8 @@ static void *tramp(void *p)
     sem_wait(&me->sem);
     me->fn(me->arg);
     me->alive = 0;
+    vid_release(me);
+    me->ended = 1;
     me->pend.kind = OP_NONE;
     if (trace_inline) fprintf(stdout, "I %s end\n", me->name);
     if (me->eager) { me->eager = 0; sem_post(&handback); return NULL; }
@@ -982,7 +1034,10 @@ int main(int argc, char **argv)
         else if (!strcmp(k, "yield")) yield_mask = yield_of(v);
         else if (!strcmp(k, "inline")) trace_inline = atoi(v);
         else if (!strcmp(k, "budget")) budget = atol(v);
+        else if (!strcmp(k, "tstates")) show_ts = atoi(v);
         else if (!strcmp(k, "spinlimit")) spin_limit = atol(v);
+        else if (!strcmp(k, "reltime")) reltime = atoi(v);
+        else if (!strcmp(k, "connerr")) stub_connerr = atoi(v);
         else if (!strcmp(k, "seed")) { rng = 88172645463325252ULL ^ ((uint64_t) atoll(v) * 0x9e3779b97f4a7c15ULL); if (!rng) rng = 1; rnd(); rnd(); }
         else if (!strcmp(k, "spurious")) { spur_rate = atoi(v); v = strtok(NULL, " \t\n"); spur_max = v ? atoi(v) : 1000000; }
         else if (!strcmp(k, "tickrate")) tick_rate = atoi(v);
@@ -1004,6 +1059,7 @@ int main(int argc, char **argv)
             h->conn_kind = !strcmp(v, "refuse") ? CONN_REFUSE : !strcmp(v, "hang") ? CONN_HANG : CONN_OK;
             v = strtok(NULL, " \t\n");
             h->conn_at = v ? atol(v) : 0;
+            h->conn_rel = h->conn_at;
         } else if (h && !strcmp(k, "rc")) h->destroy_rc = atoi(v);
         else if (h && !strcmp(k, "destroyhang")) h->destroy_hang = atoi(v);
         else if (h && (!strcmp(k, "out") || !strcmp(k, "err"))) {
@@ -1012,7 +1068,7 @@ int main(int argc, char **argv)
             char *d = strtok(NULL, " \t\n");
             if (s->n >= MAXITEMS) { fprintf(stderr, "too many script items\n"); return 3; }
             it = &s->it[s->n++];
-            it->at = atol(v);
+            it->at = atol(v) < 0 ? NEVER : atol(v);
             if (!d || !strcmp(d, "EOF")) it->kind = IT_EOF;
             else if (!strcmp(d, "ERR")) it->kind = IT_ERR;
             else { it->kind = IT_DATA; it->bytes = unhex(d, &it->len); }
@@ -1022,10 +1078,11 @@ int main(int argc, char **argv)
     /* script times are relative to the start of the run */
     for (i = 0; i < nvhosts; i++) {
         int j, k;
+        if (reltime) continue;
         vhosts[i].conn_at += vclock;
         for (k = 0; k < 2; k++)
             for (j = 0; j < vhosts[i].s[k].n; j++)
-                vhosts[i].s[k].it[j].at += vclock;
+                if (vhosts[i].s[k].it[j].at < NEVER) vhosts[i].s[k].it[j].at += vclock;
     }
     fanout = opt.fanout;
     ct = opt.connect_timeout;
